@@ -171,11 +171,15 @@ def famCli (H : HashFn) (kv : KV) : String × String :=
         match fin.2.1 with
         | .ok => s!"r=ok out={hexOr fin.1.file} " ++ judge H fin.1.file
         | _ => "r=err"
-    -- spec: exactly the loaded blocks, once each, in first-load order, under the requested root
+    -- spec: exactly the loaded blocks, once each (per store key for version 2: multihash; per CID for
+    -- version 1), in first-load order, under the requested root
     let log := specLog o (loads.map fun c => ⟨c, get c⟩)
     let s :=
       if eng != "ok" then "r=err"
-      else if ver == 1 then s!"r=ok out={hexOr (payload (some [root]) log)} " ++ judgeSpec [root] log
+      else if ver == 1 then
+        -- the root module's writer keys by whole CID: every distinct loaded CID once, in first-load order
+        let log1 := (dedupFirst loads).map fun c => (⟨c, get c⟩ : Block)
+        s!"r=ok out={hexOr (payload (some [root]) log1)} " ++ judgeSpec [root] log1
       else match Spec.finalFile o (some [root]) log with
         | some f => s!"r=ok out={hexOr f} " ++ judgeSpec [root] log
         | none => "r=err"
